@@ -31,9 +31,10 @@ def bid_remaining(p, val, has_fee):
         out.append((fd, SUB(Ft, nget(val, (('f', 'accumulated_fee'),)))))
     return out
 
-def fee_state(p, val):
+def fee_state(p, val, eng=None):
     fee = nget(val, (('f', 'fee'),))
     if fee[0] == 'adt': return fee[2] == 'Some'
+    if eng is not None: return fee_presence(eng, PROP, p, fee, 'the bid is settled') == 'Some'
     return p.variant_of(fee) == 'Some'
 
 def conservation(eng, p):
@@ -48,11 +49,13 @@ def conservation(eng, p):
             if val is None and op == 'remove':
                 ok_visible = False; continue
             if ns == 'ask':
+                if base is not None and ask_state(p, base) is None:
+                    ask_class_presence(eng, PROP, p, base, 'the ask is settled')     # reports: conservation cannot be decided without the class
                 if base is not None and ask_state(p, base) == 'Ready': dom.assume_ready_ask(base)
                 old = ask_remaining(p, base, base) if base is not None else []
                 new = ask_remaining(p, base, val) if op == 'save' else []
             else:
-                hf = fee_state(p, val)
+                hf = fee_state(p, val, eng)
                 if base is not None:
                     dom.assume_bid(base, hf)
                     bs = BidSpec(base)
